@@ -359,6 +359,30 @@ def gen_key_history(g, nfmt=4, length=None, with_maps=True, mseq=None):
     return a
 
 
+def rotation_histories():
+    """deterministic key histories: nf formats stated before the first segment (in every rotation of their order for nf=3),
+    then one format (each in turn) restated with a new URI before the second segment, optionally a second one before the third"""
+    fm = [None, "com.apple.streamingkeydelivery", "urn:uuid:edef8ba9-79d6-4ace-a3c8-27dcd51d21ed", "com.microsoft.playready"]
+    def key(f, u):
+        return {"method": "AES-128" if f is None else "SAMPLE-AES", "uri": u, "iv": None, "format": f, "versions": None}
+    def seg(i, keys):
+        return {"keys_before": keys, "map": None, "uri": "r%d.ts" % i, "dur": "9.5", "title": None, "disc": False, "pdt": None,
+                "range": None, "daterange": None}
+    out = []
+    for nf in (3, 4):
+        orders = [list(range(nf))[i:] + list(range(nf))[:i] for i in range(nf)] + [list(reversed(range(nf)))]
+        for order in orders:
+            for rot in range(nf):
+                for rot2 in [None] + [x for x in range(nf) if x != rot][:2]:
+                    segs = [seg(0, [key(fm[i], "k%d" % i) for i in order]), seg(1, [key(fm[rot], "k%d-b" % rot)])]
+                    segs.append(seg(2, [key(fm[rot2], "k%d-c" % rot2)] if rot2 is not None else []))
+                    segs.append(seg(3, []))
+                    out.append({"target": 10, "mseq": 3, "dseq": None, "ptype": None, "iframes": False, "indep": False, "start": None,
+                                "endlist": False, "version_tag": None, "unknown": [], "d17": False, "segs": segs})
+    return out
+
+
+
 def enum_key_histories(maxlen):
     """exhaustive: all sequences of events over {K(f,v) for f in 3 formats, v in 2 versions, NONE, MAP, SEG}"""
     fm = [None, "identity", "com.example.drm"]
@@ -1346,9 +1370,17 @@ class C16(Prop):
         g = gen.G(seed * 1000003 + 16)
         out = []
         n = 0
-        for k in range(count_tier(tier, 120, 2500)):
+        rots = rotation_histories()
+        if tier == "quick":
+            rots = rots[(seed % 3)::3]
+        nrand = count_tier(tier, 120, 2500)
+        for k in range(nrand + len(rots)):
             gen.plain_style(g)
-            if k % 4 == 3:
+            if k >= nrand:
+                a = rots[k - nrand]          # three / four key formats in effect, one of them rotated: order of the keys in effect
+                text = gen.render_media(a, None)
+                op = "media"
+            elif k % 4 == 3:
                 a = gen.gen_master(g)
                 text = gen.render_master(a, None)
                 op = "master"
